@@ -342,9 +342,11 @@ pub fn run(
     std::thread::spawn(move || task_thread(st2, labels, factory, only));
     let mut points: Vec<(Vec<(String, u32)>, usize)> = vec![];
     let mut running: Option<usize> = None;
-    let deadline = std::time::Instant::now() + std::time::Duration::from_secs(240);
     let mut out = RunOut::default();
     loop {
+        // watchdog per step (not per execution): a step is milliseconds of work, but the box may be
+        // heavily oversubscribed
+        let deadline = std::time::Instant::now() + std::time::Duration::from_secs(600);
         let mut g = c.m.lock().unwrap();
         loop {
             let busy = |s: &Status| matches!(s, Status::Running | Status::NotStarted);
